@@ -117,6 +117,19 @@ Definition nondominated_sort_max (eps : list nat -> list nat) (X : list vec) (ma
 
 (* ---- MOASHA ------------------------------------------------------------ *)
 
+(* MOASHA._metric_dict: each reported metric is multiplied by +1 (mode "min") or -1 (mode "max");
+   [true] stands for "min". -(+inf) = -inf. Missing mode entries (shorter list) mean "min". *)
+Definition xneg (a : xq) : xq := match a with NInf => PInf | Fin q => Fin (- q) | PInf => NInf end.
+Fixpoint metric_dict (modes : list bool) (vals : vec) : vec :=
+  match vals with
+  | [] => []
+  | v :: vals' =>
+      match modes with
+      | [] => v :: metric_dict [] vals'
+      | m :: modes' => (if m then v else xneg v) :: metric_dict modes' vals'
+      end
+  end.
+
 (* np.searchsorted(sorted(p), p)[-1] = number of priorities strictly smaller than own *)
 Definition count_lt (own : Q) (ps : list Q) : nat :=
   length (filter (fun p => Qltb p own) ps).
